@@ -2272,6 +2272,9 @@ Box<ITV>::remove_higher_space_dimensions(const dimension_type new_dimension) {
     return;
   }
 
+  // If the box is empty this must be detected before resizing, because
+  // the empty interval may be among the removed ones.
+  (void) is_empty();
   seq.resize(new_dimension);
   PPL_ASSERT(OK());
 }
